@@ -331,6 +331,11 @@ def shard(ctx, si, payload):
                 ctx.violation("call", f"RegionGeom.__call__ (altitude {cfgt[0]}) does not return exactly the kept events' (beta, theta, path length)", {"cfg": cfgt})
         except Exception as e:
             ctx.exception("raises", "RegionGeom.__call__ raised", e, {"cfg": cfgt})
+        # ---- the diagnostic plot is an observer of __call__
+        if k == 0:
+            from .. import plotobs
+
+            plotobs.check_stage(ctx, f"RegionGeom.__call__ (altitude {cfgt[0]})", lambda: RegionGeom(cfg), lambda o, kw: o(500, **kw), (), "call", seed=int(rng.integers(2**31)))
 
 
 def run(ctx):
@@ -341,7 +346,7 @@ def run(ctx):
     nsh = ctx.pick(6, 16)
     payloads = [{"cfgs": cfgs[i::nsh], "nint": nint} for i in range(nsh)]
     core.run_shards(ctx, "nssmon.checks.c02", "shard", payloads, workers=nsh)
-    for m in ("range", "inverse-cdf", "inverse-cdf-decimal", "monotone", "spot", "emergence", "mask", "along", "along-after-rethrow", "history", "call"):
+    for m in ("range", "inverse-cdf", "inverse-cdf-decimal", "monotone", "spot", "emergence", "mask", "along", "along-after-rethrow", "history", "call", "plots"):
         ctx.require(m)
     if ctx.obs.get("kept_events_seen", 0) < 1000:
         ctx.inconclusive_because("fewer than 1000 kept events were observed")
